@@ -169,6 +169,35 @@ fn case<S: GElem>(ctx: &Ctx, rep: &mut Report, case: u64, g: &mut Sm64) {
         }
         if check_history(rep, &sig, mon, case, d, &bits_vec(&init), &chain.target.calls, &after, n_steps) {
             rep.count("chains_checked_direct");
+            // the public field current_state may be replaced, also by a state of another dimension
+            let d2 = match g.below(3) {
+                0 => d + g.range(1, 5),
+                1 => (d / 2).max(1),
+                _ => d,
+            };
+            let init2: Vec<S> = (0..d2).map(|i| S::unique(3_000_000 + i as u64, false)).collect();
+            chain.current_state = init2.clone();
+            chain.target.calls.clear();
+            let mut after2 = vec![];
+            let r = guard(|| {
+                for _ in 0..3 {
+                    after2.push(bits_vec(&chain.step().clone()));
+                }
+            });
+            rep.evals(3);
+            match r {
+                Err(m) => {
+                    rep.violation(&format!("{sig} panic after current_state was replaced"), mon, case, json!({"d_before": d, "d_after": d2, "panic": m}));
+                    return;
+                }
+                Ok(()) => {
+                    if check_history(rep, &format!("{sig} (after replacing current_state)"), mon, case, d2, &bits_vec(&init2), &chain.target.calls, &after2, 3) {
+                        rep.count("chains_checked_after_state_replacement");
+                    } else {
+                        return;
+                    }
+                }
+            }
         }
         rep.sample(json!({"mode": "direct", "S": S::NAME, "d": d, "steps": n_steps, "weird_values": weird,
             "first_calls": chain.target.calls.iter().take(3).map(|c| json!({"index": c.0, "answer_bits": c.2})).collect::<Vec<_>>()}));
